@@ -27,7 +27,8 @@ ASSUMPTIONS = [
 ]
 
 KINDS = ["write", "read", "timeout"]
-FOLLOW = {"v5": ["state", "getPubKey", "sign_unauth"], "v1": ["getPubKey", "sign"]}
+FOLLOW = {"v5": [k[1] for k in c04.NAMES if k[0] == "v5"],
+          "v1": [k[1] for k in c04.NAMES if k[0] == "v1"]}
 def _observed_bringup():
     """The APDU commands the real bring-up sends to a device found in signer mode, observed
     once from the code under test (so that the repair is compared with 'the full bring-up
@@ -84,7 +85,9 @@ def check_followups(h, w, p, m, follow_key, k, where, repair_expected, labels):
         rep, exc, ev, out = serve(h, w, follow_key)
         evs = events(ev)
         if exc is not None:
-            if dev_mode_before != SIGNER and repair_expected:
+            if dev_mode_before != SIGNER:
+                # e.g. an interrupted uiHeartbeat left the device in UI-heartbeat mode: what
+                # the next request does then is C09's / C13's matter
                 labels.append("stopped-device-not-in-signer")
                 return
             raise Violation("follow-up-shutdown", "%s: follow-up #%d raised %s: %s" % (
@@ -110,12 +113,17 @@ def check_followups(h, w, p, m, follow_key, k, where, repair_expected, labels):
                 raise Violation("no-close-before-reconnect", "%s: events %r" % (where, evs))
             labels.append("retry-after-connect-failure")
         else:
-            want_prefix = (["close"] if a == 0 else []) + ["connect"] + BRINGUP
+            # closes and re-opens (a retry may close again: harmless), then the full bring-up
+            if a == 0 and evs[:1] != ["close"]:
+                raise Violation("no-close-before-reconnect", "%s: events %r" % (where, evs))
+            while evs[:1] == ["close"]:
+                evs = evs[1:]
+            want_prefix = ["connect"] + BRINGUP
             if evs[:len(want_prefix)] != want_prefix:
                 raise Violation("repair-sequence", "%s: follow-up #%d events %r, expected to "
                                 "start with %r" % (where, a + 1, evs[:10], want_prefix))
             cmd_apdus = evs[len(want_prefix):]
-            if not cmd_apdus or not all(isinstance(x, int) for x in cmd_apdus):
+            if not any(isinstance(x, int) for x in cmd_apdus):
                 raise Violation("no-command-after-repair", "%s: events %r" % (where, evs))
             if rep["errorcode"] != 0:
                 raise Violation("follow-up-not-served", "%s: follow-up #%d -> %r" % (
@@ -153,6 +161,59 @@ def run_case(c):
     check_followups(h, w, p, c["m"], (c["m"], c["follow"]), c["k"], where, kind != "timeout",
                     labels)
     return Out(labels, i >= 1 and len(kinds) > 1)
+
+
+# ---------------------------------------------------------------- faults during the repair itself
+
+def repair_fault_cells(tier, seed):
+    out = []
+    for m in ("v5", "v1"):
+        for first in FOLLOW[m][:3]:
+            for j in range(len(BRINGUP)):
+                for kind in KINDS:
+                    for f in FOLLOW[m]:
+                        out.append({"m": m, "first": first, "j": j, "kind": kind, "follow": f})
+    return out
+
+
+def run_repair_fault(c):
+    """Link failure, then the repairing request meets a fault in exchange j of the repeated
+    bring-up: unless the manager stops there, that request is answered with the device-error
+    code and the FOLLOWING request repeats the whole repair before any command APDU."""
+    m = c["m"]
+    w, p = c04.fresh((m, c["first"]))
+    h = mw.handler(p)
+    w.faults[w.nex] = "read"
+    rep, exc, ev, out = serve(h, w, (m, c["first"]))
+    where = "%s: link failure in %s, then %s in bring-up exchange %d of the repair" % (
+        m, c["first"], c["kind"], c["j"])
+    labels = ["repair-fault:" + c["kind"]]
+    if exc is not None or rep is None or rep["errorcode"] != devcode(m):
+        raise Violation("faulted-request-code", "%s: first request -> %r %r" % (where, out[:60],
+                                                                             exc))
+    w.faults[w.nex + c["j"]] = c["kind"]
+    rep2, exc2, ev2, out2 = serve(h, w, (m, c["follow"]))
+    if exc2 is not None:
+        labels.append("stopped-during-repair")      # not prescribed either way
+        return Out(labels, False)
+    if rep2 is None:
+        raise Violation("follow-up-no-reply", "%s: output %r" % (where, out2[:100]))
+    if rep2["errorcode"] != devcode(m):
+        raise Violation("failed-repair-not-device-error", "%s: request -> %r, events %r" % (
+            where, rep2, events(ev2)[:12]))
+    rep3, exc3, ev3, out3 = serve(h, w, (m, c["follow"]))
+    evs = [x for x in events(ev3) if x != "close"]
+    if exc3 is not None or rep3 is None:
+        raise Violation("follow-up-shutdown", "%s: third request %r %r" % (where, out3[:60],
+                                                                          exc3))
+    want = ["connect"] + BRINGUP
+    if evs[:len(want)] != want:
+        raise Violation("repair-not-retried", "%s: the request after the failed repair sent %r, "
+                        "expected it to start with %r" % (where, evs[:10], want))
+    if rep3["errorcode"] != 0:
+        raise Violation("follow-up-not-served", "%s: third request -> %r" % (where, rep3))
+    labels.append("repair-retried-after-failed-repair")
+    return Out(labels, True)
 
 
 # ---------------------------------------------------------------- histories with several faults
@@ -229,6 +290,7 @@ def run_history(c):
 
 REQUIRED_LABELS = {t: ["kind:write", "kind:read", "kind:timeout", "repaired",
                        "retry-after-connect-failure", "exempt-exit-step", "history",
+                       "repair-retried-after-failed-repair", "repair-fault:timeout",
                        "faults:2"] + ["req:%s/%s" % k for k in c04.NAMES]
                    for t in ("quick", "thorough")}
 
@@ -236,6 +298,9 @@ REQUIRED_LABELS = {t: ["kind:write", "kind:read", "kind:timeout", "repaired",
 def stages(tier):
     return [EnumStage("cells", cells, run_case, exhaustive={"quick": True, "thorough": True},
                       budget_s={"quick": 120, "thorough": 600}),
+            EnumStage("repair-faults", repair_fault_cells, run_repair_fault,
+                      exhaustive={"quick": True, "thorough": True},
+                      budget_s={"quick": 60, "thorough": 300}),
             HypStage("histories", lambda t: histories(t), run_history,
                      {"quick": 100, "thorough": 1500},
                      budget_s={"quick": 60, "thorough": 600})]
